@@ -67,7 +67,7 @@ def exhaustive(tier):
                 }
 
     yield ("all 64 subsets of the 6-key universe x 11 queries", gen())
-    yield ("deep chain of nested prefix keys (as deep as set() can build)", iter([{"deep": 1}]))
+    yield ("deep chain of nested prefix keys (200 levels, or as deep as set() can build if that is less)", iter([{"deep": 1}]))
 
 
 def _run_deep(case, info):
